@@ -211,6 +211,11 @@ def StageReference(dataReference,  # type: experiment.model.graph.DataReference
                 dest = os.path.join(dest, destName)
                 shutil.copytree(reference, dest, symlinks=True)
             else:
+                #shutil.copy() follows a link at the destination and would overwrite whatever it points to,
+                #e.g. the file a `:link` reference with the same name points to
+                destFile = os.path.join(dest, os.path.split(reference)[1])
+                if os.path.islink(destFile):
+                    raise shutil.Error('Will not copy %s over the symbolic link %s' % (reference, destFile))
                 shutil.copy(reference, dest)
         elif dataReference.method == experiment.model.graph.DataReference.Link:
             name = os.path.split(reference)[1]
